@@ -51,7 +51,8 @@ func init() {
 			"certificates of non-fixture SM2 keys: the leaf certificate with its public-key point replaced (cfca.ParseSM2 parses but does not verify the certificate)"},
 		Assume: []string{"ledger equality: private scalars and SM2 public points come from the generator and the math/big model, RSA / ECDSA fixtures from crypto/x509; SM9 user keys and public keys are compared with their bytes at creation time (no independent pairing-curve model)",
 			"an unauthenticated container (plain encodings, CBC / ECB encrypted PKCS#8, PBES1, legacy PEM) under alteration only has to be handled without a panic: a different key may legitimately come out",
-			"an authenticating container (GCM PKCS#8, SM2 enveloped key, CFCA blob): alteration of a protected value byte must be refused; framing octets inside protected elements (BIT STRING unused-bits octet, INTEGER sign pad, point-format octet) and all other bytes may be refused or yield the identical key",
+			"an authenticating container (GCM PKCS#8, SM2 enveloped key, CFCA blob): alteration of a protected value byte must be refused; the unused-bits octet of the two BIT STRINGs of the SM2 enveloped key counts as a value byte (DER makes the count part of the string's value); other framing octets inside protected elements (INTEGER sign pad, point-format octet) and all other bytes may be refused or yield the identical key",
+			"every loader works on a private copy of the container that is overwritten when it returns: the decoded key must not change (no aliasing of the caller's buffer), and a returned EC private key must satisfy public = [d]G whatever was altered",
 			"wrong password = a password that differs from the right one by more than trailing zero bytes (HMAC pads keys with zeros, so PBKDF2 cannot tell those apart); 'never a key' is demanded, the error may come from the decryption or from the inner parse",
 			"KDF cost parameters are not fault targets: an altered container that announces more than 4096 PBKDF2 iterations or scrypt N*r*p > 2^15 is not handed to the library (counted as skip:kdf-cost-limit)",
 			"SM9 master scalar n-1 (allowed by GM/T 0044, refused by the library) is not judged; ECDSA scalar n-1 is a valid key and must load",
